@@ -1,0 +1,24 @@
+//go:build verif
+
+// Contracts for the verification machinery in /verif (govc). This file is only compiled with -tags verif;
+// it adds no behaviour to the package. Syntax: see /verif/DESIGN.md, Appendix A.
+package logger
+
+// verifAssume / verifAssert are the harness primitives: govc treats them as assumption and obligation;
+// natively (replays) a violated assertion panics with its label.
+func verifAssume(c bool) {
+	if !c {
+		panic("verifAssume: precondition of the harness not met")
+	}
+}
+
+func verifAssert(label string, c bool) {
+	if !c {
+		panic("verifAssert violated: " + label)
+	}
+}
+
+// (owner con-c07) Logging writes no program state of the caller (ASSUMED frame, as for pkg/logger which the engine
+// already trusts): needed by (*ImmuStore).DiscardPrecommittedTxsSince, whose warning would otherwise havoc the store.
+//@ iface Logger.Warningf
+//@   assigns internal
